@@ -18,18 +18,38 @@ pub fn calc_witness<I: IntoIterator<Item = (String, Vec<Fr>)>>(
     inputs: I,
     graph_data: &[u8],
 ) -> Vec<Fr> {
+    try_calc_witness(inputs, graph_data).unwrap()
+}
+
+/// Same as `calc_witness`, but inputs that do not fit the graph's declared input signals
+/// (unknown name, wrong length) and unreadable graph data are reported as an error
+pub fn try_calc_witness<I: IntoIterator<Item = (String, Vec<Fr>)>>(
+    inputs: I,
+    graph_data: &[u8],
+) -> Result<Vec<Fr>, String> {
     let inputs: HashMap<String, Vec<U256>> = inputs
         .into_iter()
         .map(|(key, value)| (key, value.iter().map(fr_to_u256).collect()))
         .collect();
 
     let (nodes, signals, input_mapping): (Vec<Node>, Vec<usize>, InputSignalsInfo) =
-        deserialize_witnesscalc_graph(std::io::Cursor::new(graph_data)).unwrap();
+        deserialize_witnesscalc_graph(std::io::Cursor::new(graph_data))
+            .map_err(|e| e.to_string())?;
 
     let mut inputs_buffer = get_inputs_buffer(get_inputs_size(&nodes));
+    for (key, value) in &inputs {
+        match input_mapping.get(key) {
+            None => return Err(format!("Unknown input {}", key)),
+            Some((offset, len)) => {
+                if *len != value.len() || offset + len > inputs_buffer.len() {
+                    return Err(format!("Invalid input length for {}", key));
+                }
+            }
+        }
+    }
     populate_inputs(&inputs, &input_mapping, &mut inputs_buffer);
 
-    graph::evaluate(&nodes, inputs_buffer.as_slice(), &signals)
+    Ok(graph::evaluate(&nodes, inputs_buffer.as_slice(), &signals))
 }
 
 fn get_inputs_size(nodes: &[Node]) -> usize {
